@@ -21,7 +21,7 @@ def _fn(repo, q):
     return node
 
 
-@contract(CLI, '<cli-structure>', props=['C07', 'C18', 'C14', 'C02', 'C16', 'C19', 'C13'])
+@contract(CLI, '<cli-structure>', props=['C07', 'C18', 'C14', 'C02', 'C16', 'C19', 'C13', 'C05', 'C06'])
 def _(c):
     c.trusted = True
 
@@ -45,6 +45,32 @@ def _(c):
         return ok, detail
     c.const('main-turns-every-GematoException-of-a-command-into-a-logged-message-and-status-1', main_maps_gemato_errors_to_status_1,
             props=['C18', 'C07'])
+
+    def main_status_is_never_derived_from_an_error(repo):
+        """main() has one exception handler (GematoException -> 1); every other error of a command propagates, so that the
+        interpreter ends with a traceback and a non-zero status: no handler turns an OSError (or anything else) into a return
+        value, which could be 0 or None"""
+        fn = _fn(repo, 'main')
+        handlers = [(ast.unparse(h.type) if h.type is not None else '<bare>',
+                     [ast.unparse(r.value) if r.value is not None else 'None' for r in ast.walk(ast.Module(body=h.body, type_ignores=[]))
+                      if isinstance(r, ast.Return)])
+                    for t in ast.walk(fn) if isinstance(t, ast.Try) for h in t.handlers]
+        sm = _fn(repo, 'setuptools_main')
+        exits = [ast.unparse(n) for n in ast.walk(sm) if isinstance(n, ast.Call) and ast.unparse(n.func) == 'sys.exit']
+        ok = handlers == [('GematoException', ['1'])] and exits == ['sys.exit(main(sys.argv))']
+        return ok, {'handlers of main': handlers, 'setuptools_main': exits}
+    c.const('no-other-error-is-turned-into-an-exit-status', main_status_is_never_derived_from_an_error, props=['C06', 'C18'])
+
+    def require_signed_is_unconditional(repo):
+        """--require-signed-manifest is taken as given (not combined with other options), and the test it controls looks at the
+        signed flag of the loaded top-level Manifest only"""
+        fn = _fn(repo, 'VerifyCommand.parse_args')
+        sets = [ast.unparse(n.value) for n in ast.walk(fn) if isinstance(n, ast.Assign) and ast.unparse(n.targets[0]) == 'self.require_signed_manifest']
+        call = _fn(repo, 'VerifyCommand.__call__')
+        tests = [ast.unparse(n.test) for n in ast.walk(call) if isinstance(n, ast.If) and 'require_signed_manifest' in ast.unparse(n.test)]
+        return sets == ['args.require_signed_manifest'] and tests == ['self.require_signed_manifest and (not m.openpgp_signed)'], \
+            {'assigned from': sets, 'tested as': tests}
+    c.const('require-signed-manifest-is-taken-as-given', require_signed_is_unconditional, props=['C05'])
 
     def verify_status(repo):
         fn = _fn(repo, 'VerifyCommand.__call__')
